@@ -545,7 +545,7 @@ class Interp:
         raise Unsupported(f"method {name} on an unmodelled value", n.get("sp"))
 
 
-def decide(nb, local_fn=None):
+def decide(nb, local_fn=None, bound=BOUND):
     """Returns (n_inputs, {kind: (input, output, reason)}, n_classes): the shortest counterexample of each kind of illegality."""
     chars, ranges, strs = set(), set(), set()
     collect_literals(nb, chars, ranges, strs)
@@ -561,11 +561,11 @@ def decide(nb, local_fn=None):
     # literals of callees refine the partition: repeat until no new callee literal turns up during a full enumeration
     for _ in range(4):
         dom = Domain(sorted(chars), sorted(ranges))
-        ip = Interp(dom, lf)
+        ip = Interp(dom, lf, max_lit=bound - 1)
         before = (len(chars), len(ranges))
         n = 0
         cex = {}
-        for s in dom.strings():
+        for s in dom.strings(bound):
             n += 1
             out = ip.call_fn(nb, [s])
             if not isinstance(out, str) or isinstance(out, Ch):
